@@ -262,6 +262,8 @@ class Dispatcher:
             (r"bool\(B\.get_(un)?pack_method_flags\(\)\)", False), (r"bool\(B\.get_(un)?pack_method_default_flag_values\(\)\)", True),
             (r"PY_311_MIN", True), (r"bool\(ciso8601\)|bool\(pendulum\)", True),
             (r"^pass_through is None", False), (r"^bool\(X\)$", True),
+            (r"raises\[TypeError\]@", False), (r"raises\[suppress\(TypeError\)\]", False),
+            (r"^bool\(spec\.field_ctx\.name\)$", True), (r"^bool\(B\.dialect\)$", False), (r"^bool\(B\.default_dialect\)$", False),
         ] + list(extra_assume)
         models = {f"{M_HELPERS}::{k}": self._helper(k, f) for k, f in HELPER_MODEL.items()}
         models[f"{M_PACK}::get_overridden_serialization_method"] = lambda pe, fv, a, kw, p, e: [(Const(None), p)]
@@ -372,7 +374,7 @@ class Dispatcher:
             "packer": Const(None), "unpacker": Const(None)})
         return ev.new_obj(p, f"{M_COMMON}::ValueSpec", {
             "type": lift(t), "origin_type": lift(_origin(t)), "expression": expression, "builder": B, "field_ctx": fc,
-            "could_be_none": could_be_none, "annotated_type": Const(None), "owner": Const(None),
+            "could_be_none": could_be_none, "annotated_type": Const(None), "owner": Const(None), "annotations": Lst([]),
             "no_copy_collections": Tup([lift(x) for x in self.no_copy]),
         }, oid=oid)
 
